@@ -39,7 +39,7 @@ class C11(Prop):
                    "single-threaded"]
 
     def generate(self, rng, tier):
-        n = {"quick": 400, "thorough": 15000, "search": 4000}[tier]
+        n = {"quick": 2500, "thorough": 40000, "search": 4000}[tier]
         out = []
         for i in range(n):
             kinds = ["Q", "S", "P"] + ["L"] * rng.choice([3, 4, 5])
